@@ -238,7 +238,13 @@ def check(prog: Program, tier: str) -> Result:
     _template_binders(prog, res)
     _r19_2(prog, res)
     _r19_3(prog, res)
-    res.floors.update({"R19.1": 8, "R19.2": 4, "R19.3": 1})
+    _r19_4(prog, res)
+    # a renamed binding is rewritten as ONE transaction (R19.3); that only keeps definition and uses together if the
+    # scheduler applies a transaction wholly or not at all - decided by the C10 check, adopted here
+    from . import c10 as _c10
+    res.adopt(_c10.check(prog, tier), {"R10.1", "R10.3", "R10.6"}, "R19.3",
+              "a rename is consistent only if its transaction is applied as a whole or not at all")
+    res.floors.update({"R19.1": 8, "R19.2": 4, "R19.3": 4, "R19.4": 1})
     res.analysed.update({"named_node_constructions_reaching_output": n_ctor, "guarded_name_generators": sorted(f"{a}.{b}" for a, b in gens)})
     return res
 
@@ -486,6 +492,36 @@ def _r19_3(prog: Program, res: Result) -> None:
         res.decide(ok, "R19.3", fn.loc(y), fn.fq, short(y, 60),
                    "the definition and all its uses share one transaction id (stepped once per renamed name, outside the loop over its nodes)" if ok else
                    "the transaction id changes between the nodes of one renamed binding: the definition can be renamed without its uses")
+
+
+def _r19_4(prog: Program, res: Result) -> None:
+    """Use-site discovery respects shadowing by EVERY kind of parameter: where the collector of uses decides whether a
+    nested function has its own binding of the name, it must look at positional-only, positional, *args, keyword-only
+    and **kwargs parameters alike (a walk over the whole ast.arguments node does) - otherwise the loads of a
+    keyword-only parameter are renamed together with an outer variable of the same name and captured by it."""
+    fn = prog.funcs.get(("fixes", "_get_uses_of"))
+    if fn is None:
+        raise AnalysisError("anchor fixes._get_uses_of not found")
+    ALL = {"posonlyargs", "args", "vararg", "kwonlyargs", "kwarg"}
+    whole: List[ast.AST] = []
+    partial: Dict[str, ast.AST] = {}
+    for n in walk_own(fn.node):
+        if isinstance(n, ast.Attribute) and n.attr == "args" and not (isinstance(parent(n), ast.Attribute) and parent(n).value is n):
+            # `<funcdef>.args` used as a whole (argument of a walk / iteration over the arguments node)
+            if isinstance(n.value, ast.Name) and not isinstance(n.value.ctx, ast.Store):
+                whole.append(n)
+        if isinstance(n, ast.Attribute) and n.attr in ALL and isinstance(n.value, ast.Attribute) and n.value.attr == "args":
+            partial[n.attr] = n
+    if whole:
+        res.ok("R19.4", fn.loc(whole[0]), fn.fq, "parameter shadowing test", f"looks at the whole arguments node ({short(parent(whole[0]), 60)}): every parameter kind is seen")
+    elif partial:
+        missing = sorted(ALL - set(partial))
+        res.decide(not missing, "R19.4", fn.loc(next(iter(partial.values()))), fn.fq, "parameter shadowing test",
+                   "all five parameter lists are consulted" if not missing else
+                   f"only {sorted(partial)} are consulted; a parameter in {missing} with the name being renamed is not seen as a binding of "
+                   "its own: its uses inside the function are renamed with the outer variable and captured by it")
+    else:
+        res.undecided("R19.4", fn.loc(), fn.fq, "parameter shadowing test", "no access to the parameters of nested functions found: written in an unrecognised way")
 
 
 def parent_loop(n):
